@@ -284,9 +284,100 @@ print(bad[:5])
             "obligation": getattr(ob, "name", None)}
 
 
+# ------------------------------------------------------------------------------------------------------------
+# bytes / bytearray comparison helpers: lexicographic comparison of unsigned bytes, then of the lengths
+
+first_diff = z3.Function("first_differing_index", O.I, O.I, O.I)
+BYTES_T = {"PyBytes": "PyBytes_Type", "PyByteArray": "PyByteArray_Type"}
+
+
+def _ub(o, k):
+    return z3.Select(O.bytes_of(o), k) % 256
+
+
+def _lex_sign(a, b):
+    """sign of the lexicographic comparison of the two byte strings as CPython's bytes_richcompare defines it: the first
+    differing byte (unsigned) inside the common length decides, else the lengths.  first_diff is the position of that byte
+    (the common length if there is none): a definitional choice, instantiated for this pair only."""
+    la, lb = O.blen(a), O.blen(b)
+    short = If(la < lb, la, lb)
+    d = first_diff(a, b)
+    j = z3.Int("j!lexb")
+    definition = And(d >= 0, d <= short, z3.ForAll([j], Implies(And(j >= 0, j < d), _ub(a, j) == _ub(b, j))),
+                     Implies(d < short, _ub(a, d) != _ub(b, d)))
+    sign = If(d < short, If(_ub(a, d) < _ub(b, d), -1, 1), If(la < lb, -1, If(la > lb, 1, 0)))
+    return definition, sign
+
+
+def _bytes_post(op):
+    def post(e):
+        definition, sign = _lex_sign(e.s1, e.s2)
+        want = {"Eq": sign == 0, "Ne": sign != 0, "Lt": sign < 0, "Le": sign <= 0, "Gt": sign > 0, "Ge": sign >= 0}[op]
+        return Implies(definition, And(e.err == 0, (e.result != 0) == want))
+    return post
+
+
+def _bytes_units(props):
+    us = []
+    for op in ("Eq", "Ne", "Lt", "Le", "Gt", "Ge"):
+        for p1 in ("PyBytes", "PyByteArray"):
+            for p2 in ("PyBytes", "PyByteArray"):
+                fname = "__Pyx_PyObject_Compare%s%sBool%s" % (p1, p2, op)
+                req = [("operand types (checked by the dispatcher)",
+                        lambda e, p1=p1, p2=p2: And(O.exact_type(e.s1) == TID[BYTES_T[p1]], O.exact_type(e.s2) == TID[BYTES_T[p2]],
+                                                    Implies(O.exact_type(e.s1) == TID["PyBytes_Type"], O.is_bytes_sub(e.s1)),
+                                                    Implies(O.exact_type(e.s2) == TID["PyBytes_Type"], O.is_bytes_sub(e.s2)))),
+                       ("the dispatcher answers identical objects itself", lambda e: e.s1 != e.s2),
+                       ("CPython: the buffers of bytes and bytearray objects are NUL-terminated",
+                        lambda e: And(z3.Select(O.bytes_of(e.s1), O.blen(e.s1)) == 0, z3.Select(O.bytes_of(e.s2), O.blen(e.s2)) == 0)),
+                       ("model: the contents are chars (-128..127)",
+                        lambda e: z3.ForAll([z3.Int("k!ch")], And(*[And(z3.Select(O.bytes_of(o), z3.Int("k!ch")) >= -128,
+                                                                        z3.Select(O.bytes_of(o), z3.Int("k!ch")) <= 127) for o in (e.s1, e.s2)])))]
+                if p1 == p2 == "PyBytes":
+                    req.append(("CPython: the empty bytes object is a singleton, so two distinct bytes objects are not both empty",
+                                lambda e: Not(And(O.blen(e.s1) == 0, O.blen(e.s2) == 0))))
+                u = CUnit("Optimize.Compare%s%s[Bool%s]" % (p1, p2, op), props, fname, _tu, filt=[fname], pyobjs=("s1", "s2"), requires=req,
+                          ensures=[("the answer is CPython's lexicographic comparison of the unsigned bytes, then of the lengths", _bytes_post(op))],
+                          options={"inline": ("*",), "merge": False},
+                          subject={"file": "Cython/Utility/Optimize.c", "template": "PyObjectCompare", "instantiation": "%s%sBool%s" % (p1, p2, op)})
+                u.exec_cls = O.CExecPyObj
+                u.err_ghost = True
+                u.replay = _native_bytes
+                u.concrete_search = lambda ob, regions=(): _native_bytes({}, ob)
+                us.append(u)
+    return us
+
+
+def _native_bytes(model, ob=None):
+    import os
+    import subprocess
+    ctext, cfile = cextract.compile_pyx(PYX, name="dvcmprep")
+    d = os.path.dirname(cfile)
+    so = os.path.join(d, "dvcmprep.so")
+    p = subprocess.run(["clang", "-shared", "-fPIC", "-O0", "-w", "-I" + cextract.PY_INCLUDE, cfile, "-o", so], capture_output=True, text=True)
+    if p.returncode != 0:
+        return {"confirmed": False, "note": "build failed " + p.stderr[-300:]}
+    code = r'''
+import sys, operator as op; sys.path.insert(0, %r); import dvcmprep as m
+fs = {"beq": op.eq, "bne": op.ne, "blt": op.lt, "ble": op.le, "bgt": op.gt, "bge": op.ge}
+raw = [b"", b"a", b"\x80", b"\xff", b"\x00", b"ab", b"a\x80", b"a\xff", b"abc", b"ab\x00", b"\x7f", b"\x80a", b"aa"]
+vals = [bytes(bytearray(x)) for x in raw] + [bytearray(x) for x in raw]
+vals2 = [bytes(bytearray(x)) for x in raw] + [bytearray(x) for x in raw]
+bad = [(n, a, b) for n, f in fs.items() for a in vals for b in vals2 if bool(getattr(m, n)(a, b)) != bool(f(a, b))]
+print(bad[:4])
+''' % d
+    r = subprocess.run(["/venv/bin/python", "-c", code], capture_output=True, text=True, timeout=300)
+    out = r.stdout.strip()
+    return {"inputs": "all pairs of bytes / bytearray objects over 13 byte strings (empty, high bytes, prefixes), six comparisons in `if` context",
+            "actual": out or r.stderr[-400:], "confirmed": out != "[]",
+            "how": "catalogue module built from the working tree; answers compared with CPython's own comparison",
+            "obligation": getattr(ob, "name", None)}
+
+
 def units(tier):
     us = []
     props = {"C19": None, "C36": ["ub", "pre", "subset"]}
+    us.extend(_bytes_units(props))
     for op in ("Eq", "Ne"):
         fname = "__Pyx_PyLong_%sObjC" % op
         u = CUnit("Optimize.PyLongCompare.%sObjC" % op, {"C19": None, "C02": None, "C36": ["ub", "pre", "subset"]}, fname, _tu, filt=[fname], pyobjs=("op1", "op2"),
